@@ -391,6 +391,18 @@ class EvolvableModule(nn.Module, metaclass=ModuleMeta):
 
         super().__setattr__(name, value)
 
+        # The wrappers installed on this instance for the methods of a previous sub-module
+        # of this name would keep mutating the discarded module: point them at the new one
+        if isinstance(value, EvolvableModule):
+            for mut_name, method in value.get_mutation_methods().items():
+                method_name = ".".join([name, mut_name])
+                if method_name in self.__dict__:
+                    object.__setattr__(
+                        self,
+                        method_name,
+                        _mutation_wrapper(self, method, method_name),
+                    )
+
     def __getattr__(self, name: str) -> Any:
         """Get attribute of the network. If the attribute is a mutation method, return the
         method (also one from a nested module). Otherwise, raise an AttributeError.
